@@ -254,6 +254,10 @@ def _posval(op):
         return str(op["pos"])
     if bad == "list":
         return [op["pos"]]
+    if bad == "huge":
+        return 10 ** 100            # an integer no list index can hold (list.insert raises OverflowError)
+    if bad == "neghuge":
+        return -(10 ** 100)
     return op["pos"]
 
 
